@@ -50,7 +50,7 @@ def gen_cases(rng, tier):
         sensitive = rng.random() < 0.3
         cfg = cfg_for(rng, sensitive)
         h = []
-        kind = rng.choice(['simple', 'simple', 'held-across', 'nested', 'recursive', 'switch-record', 'rerecord', 'limit', 'empty', 'random'])
+        kind = rng.choice(['simple', 'simple', 'held-across', 'nested', 'recursive', 'switch-record', 'rerecord', 'limit', 'empty', 'random', 'record-key-held', 'truncate-held'])
         single = rng.random() < 0.7      # at most one typing key down at a time: the order of the final releases is then determined
         def ty_(n, hold_across=False):
             return typing(rng, n, hold_across, single)
@@ -86,6 +86,24 @@ def gen_cases(rng, tier):
         elif kind == 'limit':
             ty, _ = ty_(rng.randint(10, 40))
             h = tap('g') + ty + tap('h') + tap('j') + ['t1500']
+        elif kind == 'record-key-held':
+            # the record key stays down while the first keys are typed, after an idle stretch: the first recorded event is a real key
+            ty, _ = ty_(rng.randint(2, 6))
+            h = ['d%d' % C['g'], 't%d' % rng.choice([3, 60, 150, 400])] + ty[:rng.randint(2, len(ty))]
+            h += ['u%d' % C['g'], 't3'] + [t for t in ty[len(h) - 2:]][:0]
+            down_now = []
+            for t in h:
+                if t[0] == 'd' and int(t[1:]) in [C[k] for k in 'asdf']:
+                    down_now.append(t[1:])
+                elif t[0] == 'u' and t[1:] in down_now:
+                    down_now.remove(t[1:])
+            h += sum([['u' + k, 't2'] for k in down_now], []) + tap('h') + ['t20'] + tap('j') + ['t900']
+        elif kind == 'truncate-held':
+            # stop-truncate with a recorded key still held when recording stops
+            ty, _ = ty_(rng.randint(1, 4))
+            k = rng.choice(['a', 's', 'd'])
+            k2 = rng.choice(['f', 'a'])
+            h = tap('g') + ty + ['d%d' % C[k], 't3'] + (tap(k2) if k2 != k and rng.random() < 0.6 else []) + tap('l') + ['t5', 'u%d' % C[k], 't5'] + tap('j') + ['t900']
         elif kind == 'empty':
             h = tap('g') + tap(rng.choice(['h', 'g', 'l'])) + tap('j') + ['t100'] + tap('h') + tap('j') + ['t100']
         else:
@@ -148,9 +166,41 @@ def oracle(case, it):
     return None
 
 
+def compare(it, mt):
+    """event-by-event equality, except when the saved macros differ only in the order of the releases appended for keys still down
+    (a hash set in the Rust: "in no particular order"; the model uses first-pressed order) - then the replay timing legitimately differs"""
+    import kvlib
+    if kvlib.same_trace(it, mt):
+        return True
+    def macros(tr):
+        out = {}
+        for l in tr or []:
+            m = re.match(r'DM@\d+ (\d+) : ?(.*)', l)
+            if m:
+                out[m.group(1)] = m.group(2).split()
+        return out
+    a, b = macros(it), macros(mt)
+    if not a or a.keys() != b.keys():
+        return False
+    ambiguous = False
+    for k in a:
+        if a[k] == b[k]:
+            continue
+        def split(items):
+            i = len(items)
+            while i > 0 and re.fullmatch(r'R\d+,0', items[i - 1]):
+                i -= 1
+            return items[:i], sorted(items[i:])
+        if split(a[k]) != split(b[k]):
+            return False
+        ambiguous = True
+    return ambiguous
+
+
 SPEC = {
+    'compare': compare,
     'id': 'C19', 'sub': 'ksim', 'gen_cases': gen_cases, 'nontrivial': trace_has_output, 'oracle': oracle,
-    'rule': 'recording scenarios (simple, keys held across start/stop, nested play, re-record, size limit, empty recording, random) on '
+    'rule': 'recording scenarios (simple, keys held across start/stop, record key held while typing, stop-truncate with a key held, nested play, re-record, size limit, empty recording, random) on '
             'time-insensitive and time-sensitive mappings, both replay-delay behaviours, truncation 0-3; non-trivial = distinct (config, trace) with output',
     'explanation': 'theorems: saved macro = typed events minus the stop key and truncated tail; add_releases leaves nothing down; '
                    'no self recursion; size limit; replay pops items in order with the 5-tick pacing',
